@@ -32,10 +32,10 @@ def _uniq_sorted(xs):
 @st.composite
 def train_on_grid(draw, n, pool, earlier, max_spikes):
     """sorted distinct ints in [0, n]"""
-    kinds = ["empty", "one", "one_start", "one_end", "both_edges", "pool",
-             "random", "periodic", "burst", "pool", "random"]
+    kinds = ["empty", "one", "one_start", "one_end", "both_edges"] + \
+        ["pool", "random"] * 4 + ["periodic", "burst"] * 2
     if earlier:
-        kinds.append("copy")
+        kinds += ["copy"] * 2
     kind = draw(st.sampled_from(kinds))
     cap = min(max_spikes, n + 1)
     if kind == "empty":
@@ -216,11 +216,14 @@ def to_interval(iv):
 # ---------------------------------------------------------------------------
 @st.composite
 def float_train_lists(draw, min_trains=2, max_trains=2, max_spikes=8):
-    t0 = draw(st.floats(-1e3, 1e3, allow_nan=False, allow_infinity=False))
-    ln = draw(st.floats(1e-3, 1e3, allow_nan=False, allow_infinity=False))
+    """Valid trains whose times are arbitrary (non-grid) doubles.  Resolution
+    floor (an implicit precondition of every real caller): distinct times are at
+    least 2^-30 of the recording length apart, except 1-ulp neighbours of times
+    of magnitude >= 1e-3 - no gaps so small that their products underflow."""
+    t0 = draw(st.integers(-1000, 1000)) + draw(st.integers(0, 1 << 20)) / float(1 << 20)
+    ln = draw(st.sampled_from([1e-3, 0.1, 1.0, 3.7, 100.0, 1e3])) * \
+        (1 + draw(st.integers(0, 1 << 20)) / float(1 << 20))
     t1 = t0 + ln
-    if not t1 > t0:
-        t1 = t0 + 1.0
     nt = draw(st.integers(min_trains, max_trains))
     trains = []
     allt = []
@@ -230,11 +233,12 @@ def float_train_lists(draw, min_trains=2, max_trains=2, max_spikes=8):
         for _ in range(k):
             kind = draw(st.sampled_from(["f", "f", "f", "copy", "next", "s", "e"]))
             if kind == "f" or (kind in ("copy", "next") and not allt):
-                v = draw(st.floats(t0, t1, allow_nan=False))
+                v = t0 + ln * (draw(st.integers(0, 1 << 30)) / float(1 << 30))
             elif kind == "copy":
                 v = draw(st.sampled_from(allt))
             elif kind == "next":
-                v = math.nextafter(draw(st.sampled_from(allt)), t1)
+                v = draw(st.sampled_from(allt))
+                v = math.nextafter(v, t1) if abs(v) >= 1e-3 else v + ln / (1 << 30)
             elif kind == "s":
                 v = t0
             else:
@@ -245,6 +249,11 @@ def float_train_lists(draw, min_trains=2, max_trains=2, max_spikes=8):
         allt += tr
         trains.append(tr)
     return dict(t0=t0, t1=t1, trains=trains)
+
+
+def float_mrts(ln):
+    return st.one_of(st.none(), st.just(0.0),
+                     st.integers(1, 1 << 21).map(lambda k: ln * k / float(1 << 20)))
 
 
 # ---------------------------------------------------------------------------
